@@ -19,8 +19,12 @@ def main():
             checks = a.split("=")[1].split(",")
         if a.startswith("--features="):
             feat = " --features " + a.split("=")[1]
-    wt = "/tmp/mut/%s" % prop
-    out = "/tmp/mut/out_%s/%s" % (prop, var)
+    root = "/tmp/mut"
+    for a in sys.argv[3:]:
+        if a.startswith("--root="):
+            root = a.split("=")[1]
+    wt = "%s/%s" % (root, prop)
+    out = "%s/out_%s/%s" % (root, prop, var)
     dest = "/verif/seeded/%s%s" % (prop, var)
     os.makedirs(dest, exist_ok=True)
     patch = os.path.join(out, "patch.diff")
